@@ -41,7 +41,7 @@ def drop(s, j):
 def matches(s, pattern):
     """s is in the language of `pattern` (un-anchored text, re.fullmatch semantics)"""
     import re
-    if isinstance(s, (bytes, bytearray)):
+    if isinstance(s, (bytes, bytearray)) and isinstance(pattern, str):
         return re.fullmatch(pattern.encode('latin-1'), bytes(s)) is not None
     return re.fullmatch(pattern, s) is not None
 
